@@ -95,6 +95,8 @@ pub enum Ty {
     Never,
     /// `FxHashMap<K, V>` / `HashMap<K, V>`: an association list in insertion order
     Map(Box<Ty>, Box<Ty>),
+    /// `BTreeSet<T>`: the ascending list of its elements
+    Set(Box<Ty>),
     /// an `R: Read`: the chunks still to be delivered
     Reader,
     /// a type parameter of a generic function
@@ -192,6 +194,7 @@ impl Unifier {
             }
             Ty::List(a) => Ty::list(self.default_vars(a)),
             Ty::Opt(a) => Ty::opt(self.default_vars(a)),
+            Ty::Set(a) => Ty::Set(Box::new(self.default_vars(a))),
             Ty::Res(a) => Ty::res(self.default_vars(a)),
             Ty::Res2(a, b) => Ty::Res2(Box::new(self.default_vars(a)), Box::new(self.default_vars(b))),
             Ty::Tuple(v) => Ty::Tuple(v.iter().map(|x| self.default_vars(x)).collect()),
@@ -219,6 +222,7 @@ impl Unifier {
             }
             Ty::List(a) => Ty::list(self.resolve(a)),
             Ty::Opt(a) => Ty::opt(self.resolve(a)),
+            Ty::Set(a) => Ty::Set(Box::new(self.resolve(a))),
             Ty::Res(a) => Ty::res(self.resolve(a)),
             Ty::Res2(a, b) => Ty::Res2(Box::new(self.resolve(a)), Box::new(self.resolve(b))),
             Ty::Tuple(v) => Ty::Tuple(v.iter().map(|x| self.resolve(x)).collect()),
@@ -255,6 +259,7 @@ impl Unifier {
                 Ok(Ty::Str)
             }
             (Ty::Opt(x), Ty::Opt(y)) => Ok(Ty::opt(self.unify(x, y)?)),
+            (Ty::Set(x), Ty::Set(y)) => Ok(Ty::Set(Box::new(self.unify(x, y)?))),
             (Ty::Res(x), Ty::Res(y)) => Ok(Ty::res(self.unify(x, y)?)),
             (Ty::Res2(x, e), Ty::Res2(y, f)) => Ok(Ty::Res2(Box::new(self.unify(x, y)?), Box::new(self.unify(e, f)?))),
             (Ty::Tuple(x), Ty::Tuple(y)) if x.len() == y.len() => {
@@ -292,6 +297,7 @@ pub fn lean_ty(t: &Ty) -> String {
         Ty::Error => "Err".into(),
         Ty::Never => "Unit".into(),
         Ty::Map(k, v) => format!("(List ({} × {}))", lean_ty(k), lean_ty(v)),
+        Ty::Set(a) => format!("(List {})", lean_ty(a)),
         Ty::Reader => "(List (List Nat))".into(),
         Ty::Param(n) => n.clone(),
         Ty::Fun(a, r) => format!("({} → {})", a.iter().map(lean_ty).collect::<Vec<_>>().join(" → "), lean_ty(r)),
